@@ -1,7 +1,7 @@
 import S3V.Props.C11
 /-!
-# C11 — kernel-checked counterexamples for the regions excluded by `C11.WF` / `C11.WFV`, and regression
-facts for the repaired classes (outside the pass/fail gate)
+# C11 — kernel-checked counterexample for the region excluded by `C11.WF` (a presigned URL with two
+`Expires`: no finding, the request presents no credentials), and regression facts for the repaired classes
 
 Each witness is also a line of `corpus/sigv2.txt` / `corpus/sigv2e2e.txt` and is replayed on the real
 code by every run (`known_findings.d/sigv2.json`).
@@ -38,29 +38,66 @@ theorem C11_repaired_positional_md5_date :
     stsImpl .header rMd5DateTwice = sp!"PUT\nm1,m2\n\nD1,D2\n/bkt/k" ∧
     stsSpec .header rMd5DateTwice = sp!"PUT\nm1,m2\n\nD1,D2\n/bkt/k" ∧
     hasDate (ctxOf rMd5DateTwice) = true ∧ SigV2Spec.hasDate rMd5DateTwice = true ∧
-    C11.WFV rMd5DateTwice := by decide +kernel
+    valuesVisible rMd5DateTwice = true := by decide +kernel
 
 /-- and the verdict on it is the specification's, for every MAC, credential table and clock reading: the
-    request is inside the region of `C11_verdict_iff_spec_partial` (it was excluded before the repair) -/
+    request was excluded from the region of the verdict theorem before the repair (`C11_verdict_iff_spec` now
+    holds for every request) -/
 theorem C11_repaired_positional_verdict (hmac : Bytes → Bytes → Bytes) (b64 : Bytes → Bytes)
     (lookup : Bytes → Option Bytes) (nowNs : Int) (ak : Bytes) (hnow : 0 ≤ nowNs) (hclock : nowNs ≤ maxDateTimeNs) :
     check hmac b64 lookup nowNs (ctxOf rMd5DateTwice) = .accept ak ↔
       SigV2Spec.Accepts hmac b64 lookup nowNs rMd5DateTwice ak :=
-  C11.C11_verdict_iff_spec_partial hmac b64 lookup nowNs _ ak hnow hclock (by decide +kernel)
+  C11.C11_verdict_iff_spec hmac b64 lookup nowNs _ ak hnow hclock (by decide +kernel)
 
-/-- finding `xamzdate-repeated` (corpus `w-sts-xamzdate-twice`): x-amz-date sent twice does not blank Date -/
+/-- repaired by d23bb5e (was finding `xamzdate-repeated`, corpus `w-sts-xamzdate-twice`): x-amz-date sent
+    twice blanks the Date element (it used to leave `D` there) -/
 def rXAmzDateTwice : SigV2Spec.Req :=
   ⟨sp!"GET", [(sp!"Date", sp!"D"), (sp!"x-amz-date", sp!"A"), (sp!"x-amz-date", sp!"B")], sp!"/bkt/k", [], none⟩
 
-theorem C11_counterexample_xamzdate_repeated :
-    stsImpl .header rXAmzDateTwice = sp!"GET\n\n\nD\nx-amz-date:A,B\n/bkt/k" ∧
+theorem C11_repaired_xamzdate_repeated :
+    stsImpl .header rXAmzDateTwice = sp!"GET\n\n\n\nx-amz-date:A,B\n/bkt/k" ∧
     stsSpec .header rXAmzDateTwice = sp!"GET\n\n\n\nx-amz-date:A,B\n/bkt/k" ∧
-    ¬ C11.WF .header rXAmzDateTwice := by decide +kernel
+    C11.WF .header rXAmzDateTwice := by decide +kernel
 
-/-- hence the full statement is false of the model -/
+/-- x-amz-date twice and no Date (end to end this was refused with 'missing date'): the request carries a
+    time stamp for the code as for the specification -/
+def rXAmzDateTwiceNoDate : SigV2Spec.Req :=
+  ⟨sp!"GET", [(sp!"x-amz-date", sp!"A"), (sp!"x-amz-date", sp!"B"), (sp!"Authorization", sp!"AWS AK:")],
+    sp!"/bkt/k", [], none⟩
+
+theorem C11_repaired_xamzdate_repeated_has_date :
+    hasDate (ctxOf rXAmzDateTwiceNoDate) = true ∧ SigV2Spec.hasDate rXAmzDateTwiceNoDate = true ∧
+    stsImpl .header rXAmzDateTwiceNoDate = sp!"GET\n\n\n\nx-amz-date:A,B\n/bkt/k" := by decide +kernel
+
+/-- the former counterexample to the full verdict statement: this request, correctly "signed" for the
+    constant MAC, is accepted by the specification and — now — by the code -/
+theorem C11_repaired_xamzdate_repeated_accepted :
+    check (fun _ _ => []) id (fun _ => some []) 0 (ctxOf rXAmzDateTwiceNoDate) = .accept (sp!"AK") ∧
+    SigV2Spec.acceptedKey (fun _ _ => []) id (fun _ => some []) 0 rXAmzDateTwiceNoDate = some (sp!"AK") := by
+  decide +kernel
+
+/-- and the verdict on it is the specification's for every MAC, credential table and clock reading -/
+theorem C11_repaired_xamzdate_repeated_verdict (hmac : Bytes → Bytes → Bytes) (b64 : Bytes → Bytes)
+    (lookup : Bytes → Option Bytes) (nowNs : Int) (ak : Bytes) (hnow : 0 ≤ nowNs) (hclock : nowNs ≤ maxDateTimeNs) :
+    check hmac b64 lookup nowNs (ctxOf rXAmzDateTwiceNoDate) = .accept ak ↔
+      SigV2Spec.Accepts hmac b64 lookup nowNs rXAmzDateTwiceNoDate ak :=
+  C11.C11_verdict_iff_spec hmac b64 lookup nowNs _ ak hnow hclock (by decide +kernel)
+
+/-- what `C11.WF .query` still excludes: a presigned URL with two `Expires` parameters. The code writes an
+    empty Expires element, the comma-joined reading has both; neither side reads credentials off such a
+    request (`C11_expires_repeated_no_credentials`), so no verdict depends on it and it is no finding -/
+def rExpiresTwice : SigV2Spec.Req :=
+  ⟨sp!"GET", [], sp!"/bkt/k", [(sp!"Expires", sp!"1"), (sp!"Expires", sp!"2")], none⟩
+
+theorem C11_counterexample_expires_repeated :
+    stsImpl .query rExpiresTwice = sp!"GET\n\n\n\n/bkt/k" ∧
+    stsSpec .query rExpiresTwice = sp!"GET\n\n\n1,2\n/bkt/k" ∧
+    ¬ C11.WF .query rExpiresTwice ∧ SigV2Spec.credentials rExpiresTwice = none := by decide +kernel
+
+/-- hence the full statement about the string to sign is false of the model -/
 theorem C11_sts_impl_eq_spec_full_false : ¬ C11.C11_sts_impl_eq_spec_full := by
   intro h
-  have := h .header rXAmzDateTwice (by decide +kernel)
+  have := h .query rExpiresTwice (by decide +kernel)
   revert this
   decide +kernel
 
@@ -74,7 +111,7 @@ theorem C11_repaired_expires_out_of_range :
     parsePresigned (sortByFirst qYear10000) = some ⟨sp!"AK", maxDateTimeNs, sp!"c2ln"⟩ ∧
     SigV2Spec.credentials ⟨sp!"GET", [], sp!"/bkt/k", qYear10000, none⟩ =
       some ⟨.query, sp!"AK", sp!"c2ln", some 253402300800⟩ ∧
-    C11.WFV ⟨sp!"GET", [], sp!"/bkt/k", qYear10000, none⟩ := by decide +kernel
+    valuesVisible ⟨sp!"GET", [], sp!"/bkt/k", qYear10000, none⟩ = true := by decide +kernel
 
 /-- the same for a number of seconds beyond `i64` (generator tag `expires-i64-overflow`), while a text that
     only starts like one is still refused -/
@@ -86,13 +123,13 @@ theorem C11_repaired_expires_beyond_i64 :
     parseUnixTimestamp (sp!"-99999999999999999999999") = none := by decide +kernel
 
 /-- and the verdict on the year-10000 URL is the specification's, for every MAC, credential table and clock
-    reading in the range of the clock: the request is inside the region of `C11_verdict_iff_spec_partial`
-    (it was excluded before the repair) -/
+    reading in the range of the clock: the request was excluded from the region of the verdict theorem before
+    the repair (`C11_verdict_iff_spec` now holds for every request) -/
 theorem C11_repaired_expires_out_of_range_verdict (hmac : Bytes → Bytes → Bytes) (b64 : Bytes → Bytes)
     (lookup : Bytes → Option Bytes) (nowNs : Int) (ak : Bytes) (hnow : 0 ≤ nowNs) (hclock : nowNs ≤ maxDateTimeNs) :
     check hmac b64 lookup nowNs (ctxOf ⟨sp!"GET", [], sp!"/bkt/k", qYear10000, none⟩) = .accept ak ↔
       SigV2Spec.Accepts hmac b64 lookup nowNs ⟨sp!"GET", [], sp!"/bkt/k", qYear10000, none⟩ ak :=
-  C11.C11_verdict_iff_spec_partial hmac b64 lookup nowNs _ ak hnow hclock (by decide +kernel)
+  C11.C11_verdict_iff_spec hmac b64 lookup nowNs _ ak hnow hclock (by decide +kernel)
 
 /-- repaired by a503c6a (was finding `signature-double-encoded`, corpus `w-presign-signature-double-encoded`): the
     value `ab%3D` (what `Signature=ab%253D` decodes to) is compared as it stands, as the specification
@@ -104,29 +141,16 @@ theorem C11_repaired_signature_double_encoded :
     (parsePresigned (sortByFirst qDoubleEncoded)).map (·.signature) = some (sp!"ab%3D") ∧
     (SigV2Spec.credentials ⟨sp!"GET", [], sp!"/bkt/k", qDoubleEncoded, none⟩).map (·.signature) =
       some (sp!"ab%3D") ∧
-    C11.WFV ⟨sp!"GET", [], sp!"/bkt/k", qDoubleEncoded, none⟩ := by decide +kernel
+    valuesVisible ⟨sp!"GET", [], sp!"/bkt/k", qDoubleEncoded, none⟩ = true := by decide +kernel
 
 /-- and the verdict on it is the specification's, for every MAC, credential table and clock: the request
-    is inside the region of `C11_verdict_iff_spec_partial` (it was excluded before the repair) -/
+    was excluded from the region of the verdict theorem before the repair (`C11_verdict_iff_spec` now holds
+    for every request) -/
 theorem C11_repaired_signature_double_encoded_verdict (hmac : Bytes → Bytes → Bytes) (b64 : Bytes → Bytes)
     (lookup : Bytes → Option Bytes) (nowNs : Int) (ak : Bytes) (hnow : 0 ≤ nowNs) (hclock : nowNs ≤ maxDateTimeNs) :
     check hmac b64 lookup nowNs (ctxOf ⟨sp!"GET", [], sp!"/bkt/k", qDoubleEncoded, none⟩) = .accept ak ↔
       SigV2Spec.Accepts hmac b64 lookup nowNs ⟨sp!"GET", [], sp!"/bkt/k", qDoubleEncoded, none⟩ ak :=
-  C11.C11_verdict_iff_spec_partial hmac b64 lookup nowNs _ ak hnow hclock (by decide +kernel)
-
-/-- the full verdict statement is still false of the model, because of the open finding
-    `xamzdate-repeated`: a header-authenticated request that carries x-amz-date twice (and no Date),
-    correctly "signed" for the constant MAC, is accepted by the specification (it has a time stamp) and
-    refused by the code ("missing date": `get_unique` gives `None` for the repeated header) -/
-theorem C11_verdict_iff_spec_full_false : ¬ C11.C11_verdict_iff_spec_full := by
-  intro h
-  have h1 := h (fun _ _ => []) id (fun _ => some []) 0
-    ⟨sp!"GET", [(sp!"x-amz-date", sp!"A"), (sp!"x-amz-date", sp!"B"), (sp!"Authorization", sp!"AWS AK:")],
-      sp!"/bkt/k", [], none⟩
-    (sp!"AK") (by decide) (by decide) (by decide +kernel)
-  rw [← C11.C11_reference_is_spec] at h1
-  revert h1
-  decide +kernel
+  C11.C11_verdict_iff_spec hmac b64 lookup nowNs _ ak hnow hclock (by decide +kernel)
 
 /-- repaired by 05097be (was finding `subresource-duplicated`, corpus `w-sts-subresource-twice`): a
     sub-resource written twice is signed twice -/
